@@ -692,6 +692,11 @@ func rewriteSelect(s *ast.SelectStmt, fname string) (*ast.BlockStmt, *ast.Switch
 	hd := "false"
 	if hasDefault {
 		hd = "true"
+	} else {
+		// a select without default is a terminating statement when all its clauses
+		// are; a switch is only if it has a default clause: give it an unreachable one
+		clauses = append(clauses, &ast.CaseClause{Body: []ast.Stmt{&ast.ExprStmt{X: &ast.CallExpr{
+			Fun: ast.NewIdent("panic"), Args: []ast.Expr{&ast.BasicLit{Kind: token.STRING, Value: `"simrt: select chose no clause"`}}}}}})
 	}
 	tag := &ast.CallExpr{Fun: simSel("SelectReady"), Args: append([]ast.Expr{ast.NewIdent(hd)}, cases...)}
 	sw := &ast.SwitchStmt{Tag: tag, Body: &ast.BlockStmt{List: clauses}}
